@@ -277,6 +277,8 @@ def run(ctx, rep):
                       'primary modifying effect (%s) is reachable from a public method without passing a read-only test '
                       'and outside any dirty-token test: a read-only (or backing) device can modify its file or its '
                       'metadata; path %s' % (site, chain), {'path': chain})
+    # the read-only test of C10.1 is only worth what the flag word it reads says
+    c13.flag_word_rule(f, rep, 'C10.9')
     # ---------------------------------------------------------------- C10.2
     mb = [b for b in f.body_list if b.path.endswith('Qcow2DevParams::mark_backing_dev')]
     if len(mb) != 1:
